@@ -307,6 +307,6 @@ fn run(c: &Case) -> Outcome {
 fn main() {
     let check = Check::new("C23", "exploration");
     check.rule("program P of 1-3 streams from the C16 grammar, edit P' in {identity, constant tweak with unchanged operator count (threshold, window size, limit, join window, sequence step filter), added operator, removed stream (+dependants), added stream}, <=30 events, reload at EVERY position. Oracle: (a) a stream whose definition is unchanged (and not downstream of a changed one) emits after the reload exactly what a never-reloaded engine emits; (b) a changed or added stream reading base event types emits exactly what a freshly loaded P' emits on the suffix; (c) removed streams are silent. Signatures carry the edit kind and the operator kind. Non-trivial = P has a stateful stream and some reload point has live state.");
-    check.explore("reload", strat, 1_000, 15_000, run);
+    check.explore("reload", strat, 2_000, 20_000, run);
     check.finish();
 }
